@@ -7,6 +7,7 @@ CONSTANTS
   Witness = "none"
   MaxId = 13
   MaxJobs = 2
+  MaxFault = 0
   MaxCrash = 0
   Forge = {}
   TamperOn = FALSE
